@@ -218,9 +218,9 @@ def polyPoly2 (a b : Poly) : DV :=
 /-! ### dispatch -/
 
 /-- `Rect::to_polygon` -/
-def rectPoly (mn mx : Pt) : Poly := ⟨SM.rectToPolygon ⟨mn, mx⟩, []⟩
+def dRectPoly (mn mx : Pt) : Poly := ⟨SM.rectToPolygon ⟨mn, mx⟩, []⟩
 /-- `Triangle::to_polygon` -/
-def triPoly (a b c : Pt) : Poly := ⟨SM.triangleToPolygon a b c, []⟩
+def dTriPoly (a b c : Pt) : Poly := ⟨SM.triangleToPolygon a b c, []⟩
 
 /-- the six single-part types, after `to_polygon`; `swapGG` tells which operand order the
 Rect/Triangle macros hand to `Polygon × Polygon` -/
@@ -254,38 +254,38 @@ def baseD : Base → Base → DV
   | .pt p, .ln a b => ptLine2 p a b
   | .pt p, .ls cs => ptLs2 p cs
   | .pt p, .pg g => ptPoly2 p g
-  | .pt p, .rc mn mx => ptPoly2 p (rectPoly mn mx)
-  | .pt p, .tr a b c => ptPoly2 p (triPoly a b c)
+  | .pt p, .rc mn mx => ptPoly2 p (dRectPoly mn mx)
+  | .pt p, .tr a b c => ptPoly2 p (dTriPoly a b c)
   | .ln a b, .pt p => ptLine2 p a b
   | .ln a b, .ln c d => lineLine2 a b c d
   | .ln a b, .ls cs => lineLs2 a b cs
   | .ln a b, .pg g => linePoly2 a b g
-  | .ln a b, .rc mn mx => linePoly2 a b (rectPoly mn mx)
-  | .ln a b, .tr x y z => linePoly2 a b (triPoly x y z)
+  | .ln a b, .rc mn mx => linePoly2 a b (dRectPoly mn mx)
+  | .ln a b, .tr x y z => linePoly2 a b (dTriPoly x y z)
   | .ls cs, .pt p => ptLs2 p cs
   | .ls cs, .ln a b => lineLs2 a b cs
   | .ls cs, .ls ds => lsLs2 cs ds
   | .ls cs, .pg g => lsPoly2 cs g
-  | .ls cs, .rc mn mx => lsPoly2 cs (rectPoly mn mx)
-  | .ls cs, .tr a b c => lsPoly2 cs (triPoly a b c)
+  | .ls cs, .rc mn mx => lsPoly2 cs (dRectPoly mn mx)
+  | .ls cs, .tr a b c => lsPoly2 cs (dTriPoly a b c)
   | .pg g, .pt p => ptPoly2 p g
   | .pg g, .ln a b => linePoly2 a b g
   | .pg g, .ls cs => lsPoly2 cs g
   | .pg g, .pg h => polyPoly2 g h
-  | .pg g, .rc mn mx => polyPoly2 (rectPoly mn mx) g
-  | .pg g, .tr a b c => polyPoly2 (triPoly a b c) g
-  | .rc mn mx, .pt p => ptPoly2 p (rectPoly mn mx)
-  | .rc mn mx, .ln a b => linePoly2 a b (rectPoly mn mx)
-  | .rc mn mx, .ls cs => lsPoly2 cs (rectPoly mn mx)
-  | .rc mn mx, .pg h => polyPoly2 (rectPoly mn mx) h
-  | .rc mn mx, .rc mn' mx' => polyPoly2 (rectPoly mn' mx') (rectPoly mn mx)
-  | .rc mn mx, .tr a b c => polyPoly2 (rectPoly mn mx) (triPoly a b c)
-  | .tr a b c, .pt p => ptPoly2 p (triPoly a b c)
-  | .tr a b c, .ln x y => linePoly2 x y (triPoly a b c)
-  | .tr a b c, .ls cs => lsPoly2 cs (triPoly a b c)
-  | .tr a b c, .pg h => polyPoly2 (triPoly a b c) h
-  | .tr a b c, .rc mn mx => polyPoly2 (rectPoly mn mx) (triPoly a b c)
-  | .tr a b c, .tr x y z => polyPoly2 (triPoly x y z) (triPoly a b c)
+  | .pg g, .rc mn mx => polyPoly2 (dRectPoly mn mx) g
+  | .pg g, .tr a b c => polyPoly2 (dTriPoly a b c) g
+  | .rc mn mx, .pt p => ptPoly2 p (dRectPoly mn mx)
+  | .rc mn mx, .ln a b => linePoly2 a b (dRectPoly mn mx)
+  | .rc mn mx, .ls cs => lsPoly2 cs (dRectPoly mn mx)
+  | .rc mn mx, .pg h => polyPoly2 (dRectPoly mn mx) h
+  | .rc mn mx, .rc mn' mx' => polyPoly2 (dRectPoly mn' mx') (dRectPoly mn mx)
+  | .rc mn mx, .tr a b c => polyPoly2 (dRectPoly mn mx) (dTriPoly a b c)
+  | .tr a b c, .pt p => ptPoly2 p (dTriPoly a b c)
+  | .tr a b c, .ln x y => linePoly2 x y (dTriPoly a b c)
+  | .tr a b c, .ls cs => lsPoly2 cs (dTriPoly a b c)
+  | .tr a b c, .pg h => polyPoly2 (dTriPoly a b c) h
+  | .tr a b c, .rc mn mx => polyPoly2 (dRectPoly mn mx) (dTriPoly a b c)
+  | .tr a b c, .tr x y z => polyPoly2 (dTriPoly x y z) (dTriPoly a b c)
 
 /-- coarse class of a geometry for the dispatch tables -/
 inductive Kind where
